@@ -337,7 +337,10 @@ func concScenario(name string, iters int, seed uint64) string {
 	done := make(chan error, 1)
 	go func() { done <- sys.Stop(3 * time.Second) }()
 	select {
-	case <-done:
+	case err := <-done:
+		if err != nil {
+			return "TREE: " + name + ": Stop failed after the stress (every actor of the scenario had terminated): " + err.Error()
+		}
 	case <-time.After(6 * time.Second):
 		return "TREE: " + name + ": Stop did not return after the stress"
 	}
@@ -370,6 +373,14 @@ func treeProblem(sys *actor.System) string {
 	reg := map[string]bool{}
 	for _, p := range paths {
 		reg[p] = true
+	}
+	// the root is not in the registry: its child table is inspected here
+	if sys.Context != nil {
+		for _, ch := range sys.Context.VerifState().Children {
+			if !reg[ch] {
+				return fmt.Sprintf("the root lists child %s, which is not registered (a terminated actor left in its parent's child table: the parent can never finish stopping)", ch)
+			}
+		}
 	}
 	for _, p := range paths {
 		c := sys.VerifLookup(p)
